@@ -11,14 +11,17 @@ EXES = []                                     # the Spec oracle is evaluated by 
 ASSUMPTIONS = [
     'IShort / IPack items carry the integer that resolve_immediates computed (FInt v); sequence elements are tokens that int(tok, 0) reads',
     'pack formats judged: the 20 documented two-character formats [<>][bBhHiIlLqQ]; a format without byte-order prefix is not documented and not judged',
-    'string: escapes judged are those of Python string literals (simple, octal, \\x, \\u, \\U); \\N{...}, unknown escapes and lone surrogates are not judged',
+    'string: escapes judged are those of Python string literals (simple, octal, \\x, \\u, \\U, and unrecognised escapes such as \\q or a backslash in front of a non-ASCII character: the backslash stays); \\N{...}, malformed escapes and lone surrogates are not judged',
     'a refused value may surface as any exception (which exception is C15\'s business)',
 ]
 TRUSTED_EXTRA = [
     'Model.Passes.struct_pack as a model of struct.pack and the data passes of Model/Passes.v (hand-written; tied by the pipeline correspondence)',
     'Spec/Data.v, Spec/Utf8.v: my reading of docs/assembly_language.rst, the struct documentation and RFC 3629 '
     '(cross-checked on every run against int.to_bytes and str.encode of CPython)',
-    'the string lexing step (unicode_escape) and the include search of read_lines are not in the pass model: they are covered by the falsifier only',
+    'the string lexing step (asm.decode_escapes) is not in the pass model and only its ASCII / simple-escape fragment is in the lexer model: Proofs/StringUnicode.v '
+    'decode_escapes_x models the whole expression and is compared with the real decode_escapes on every run (data_engine.check_decode_escapes); '
+    'the include_bytes branch of the parser and Line.include_path are an extension of the whole model in Proofs/IncBytesWhole.v (conservative: C10_include_bytes_model_extension), '
+    'checked against the real assembler by the include_bytes falsifier only',
 ]
 CLAIM = dict(
     text='C10_int / C10_seq / C10_pack: for db/dh/dw/dd, bytes/shorts/ints/longs/longlongs (any number of elements) and the 20 documented pack '
@@ -42,8 +45,8 @@ CLAIM = dict(
 
 def explore(ctx):
     ctx.rule = ('9 integer directives x {min-1, min, min+1, -2..2, smax-1..smax+1, umax-1..umax+2, far out, random} x spellings; sequences of '
-                '2-6 elements; 20 pack formats x the same bounds; strings: doc examples, every escape, random printable ASCII, Latin-1, BMP, '
-                'astral and mixtures; include_bytes: 7 tree shapes x 3 working directories x relative/absolute paths; non-trivial = distinct '
+                '2-6 elements; 20 pack formats x the same bounds; strings: doc examples, every escape, unrecognised escapes (backslash in front of q, 8, Latin-1, BMP, astral characters), random printable ASCII, Latin-1, BMP, '
+                'astral and mixtures; decode_escapes model vs code on 600+ texts incl. malformed escapes; include_bytes: 7 tree shapes x 3 working directories x relative/absolute paths; non-trivial = distinct '
                 '(directive or format, value) / text / (tree shape, cwd, path style)')
     data_engine.explore(ctx)
 
